@@ -29,7 +29,7 @@ All nine compile; the six "both directions" ones are invisible to pack/unpack ro
 import os, json
 import vp
 
-SHARDED = {"types", "cross", "nodata", "hdr", "rcode", "sections", "big", "compress", "orders"}
+SHARDED = {"types", "cross", "nodata", "hdr", "rcode", "sections", "big", "compress", "orders", "straddle"}
 
 
 def layout(ctx):
@@ -41,18 +41,22 @@ def layout(ctx):
     return p
 
 
-def gen_jobs(ctx, binp, lay, sub, jobs, tier):
+def gen_jobs(ctx, binp, lay, sub, jobs, tier, module="Gen_WireRR"):
     """jobs: list of (mode, nshards, shards). Each shard: TLC generates, the harness replays."""
     def one(mode, nsh, sh):
-        r, _ = ctx.tlc_vectors("Gen_WireRR", workers=1, xmx="3g", timeout=3000,
+        r, _ = ctx.tlc_vectors(module, workers=1, xmx="3g", timeout=3000,
                                consts={"Mode": '"%s"' % mode, "Tier": tier, "Shard": sh, "NShards": nsh})
         path = os.path.join(r.dir, "vectors.ndjson")
         if not os.path.exists(path):
             if nsh == 1:
-                raise vp.Infra("Gen_WireRR mode %s produced no vectors" % mode)
+                raise vp.Infra("%s mode %s produced no vectors" % (module, mode))
             return
         s = ctx.run_json(binp, [sub, lay, path])
         vp.absorb(ctx, s)
+        mm = (s.get("notes") or {}).get("model_mismatch_vectors")
+        if mm:
+            with vp._lock:
+                ctx.notes["model_mismatch_total"] = ctx.notes.get("model_mismatch_total", 0) + mm
         with vp._lock:
             ctx.notes.setdefault("vectors_per_mode", {})
             ctx.notes["vectors_per_mode"][mode] = ctx.notes["vectors_per_mode"].get(mode, 0) + s.get("evaluations", 0)
@@ -102,7 +106,7 @@ def reexecute(ctx, binp, lay, cand, sub="replay", module="Trace_WireRR"):
         annotate(tr, evs)
         return bool(tr.bad) and cand["key"].endswith(evs[0].get("stage", "?") + ":" + evs[0]["key"])
     if case.get("big"):   # octets left out of the report: regenerate the generator case (g, v)
-        r, vecs = ctx.tlc_vectors("Gen_WireRR", workers=1, xmx="3g", timeout=3000, count=False,
+        r, vecs = ctx.tlc_vectors("Gen_CompressLen" if sub == "len" else "Gen_WireRR", workers=1, xmx="3g", timeout=3000, count=False,
                                   consts={"Mode": '"%s"' % case["g"], "Tier": 1, "Shard": 0, "NShards": 1})
         vecs = [x for x in vecs if x["v"] == case["v"]]
         if not vecs:
